@@ -3,7 +3,7 @@ package stackage
 // C17 — uninitialised and freed instances are inert, not dangerous.
 // The method tables are generated from the tree under test.
 
-// p: method index, state (0 zero value, 1 freed)
+// p: method index, state (0 zero value, 1 freed, 2 freed through another handle)
 func VH_C17_Stack(p []int) {
 	m := vhAutoStack[p[0]]
 	verifCase(m.name)
@@ -13,6 +13,30 @@ func VH_C17_Stack(p []int) {
 		err := s.Free()
 		verifAssert(err == nil, "free-err")
 		verifAssert(s.IsZero() && !s.IsInit(), "free-zeroes-handle")
+	}
+	if p[1] == 2 {
+		// released through ANOTHER handle: what this handle, a parent and a
+		// Condition still reach must stay harmless (only "no panic" is asked)
+		o := And().Push("a", nil, "b")
+		s = o
+		parent := Or().Push("lead", o)
+		c := Cond("kw", Eq, o)
+		verifAssert(o.Free() == nil, "free-err")
+		m.callS(&s)
+		_ = parent.String()
+		_ = parent.Len()
+		parent.Traverse(1, 0)
+		_, _ = parent.Unmarshal()
+		parent.Reveal()
+		parent.Defrag()
+		_ = parent.IsEqual(parent)
+		_ = parent.IsNesting()
+		_ = c.String()
+		_ = c.Len()
+		_ = c.IsNesting()
+		_, _ = c.Unmarshal()
+		verifReach("end")
+		return
 	}
 	vhTruthyWhenZero = vhIsTruthyPredicate(m.name)
 	res := m.callS(&s)
@@ -26,7 +50,9 @@ func VH_C17_Stack(p []int) {
 	verifReach("end")
 }
 
-// p: method index, state (0 zero value, 1 freed, 2 Init()-only)
+// p: method index, state (0 zero value, 1 freed, 2 Init()-only, 3 Init()-only
+// with an accept-all validity policy, 4 incomplete with such a policy and held
+// by a parent)
 func VH_C17_Cond(p []int) {
 	m := vhAutoCond[p[0]]
 	verifCase(m.name)
@@ -40,10 +66,28 @@ func VH_C17_Cond(p []int) {
 	case 2:
 		c.Init()
 		verifAssert(c.IsInit(), "Init-initialises")
+	case 3:
+		// Init()-only, with a validity policy that accepts everything: the
+		// built-in completeness rules no longer stand in front of any method
+		c.Init()
+		c.SetValidityPolicy(func(...any) error { return nil })
+	case 4:
+		// the same, held by a parent whose rendering reaches it
+		c.Init()
+		c.SetKeyword("kw")
+		c.SetExpression("ex")
+		c.SetValidityPolicy(func(...any) error { return nil })
+		parent := And().Push("lead", c, Or().Push(c))
+		m.callC(&c)
+		_ = parent.String()
+		_, _ = parent.Unmarshal()
+		_ = parent.IsEqual(And().Push("lead", c, Or().Push(c)))
+		verifReach("end")
+		return
 	}
 	vhTruthyWhenZero = vhIsTruthyPredicate(m.name)
 	res := m.callC(&c)
-	if p[1] != 2 && m.name != "Condition.Init" {
+	if p[1] < 2 && m.name != "Condition.Init" {
 		for _, r := range res {
 			vhAssertZeroResult(r, "zero-result")
 		}
